@@ -383,14 +383,11 @@ def _plan(name, tier):
     return plan
 
 
-def _init_worker(cache_dir, disable_jit):
+def _init_worker(disable_jit):
     import jax
-    try:   # compiled XLA executables are reused across workers and runs (keyed by the HLO text)
-        jax.config.update("jax_compilation_cache_dir", cache_dir)
-        jax.config.update("jax_persistent_cache_min_compile_time_secs", 0)
-        jax.config.update("jax_persistent_cache_min_entry_size_bytes", -1)
-    except Exception:
-        pass
+    # NB: do NOT enable jax's persistent compilation cache (jax_compilation_cache_dir) here: on this jax (0.5.2, CPU)
+    # executables loaded from it returned wrong numbers for TFP's special-function code (measured: Skellam log_prob off
+    # by > 1 nat with the cache, exact without).
     if disable_jit:
         # quick tier: control flow inside TFP's samplers (rejection loops) and genjax's lax.cond is executed
         # op by op instead of being compiled anew at every call (each such compile costs 0.3-2 s); the values
@@ -463,21 +460,9 @@ HEAVY = ("gamma", "beta", "chi", "dirichlet", "student", "binomial", "poisson", 
          "power_spherical", "zipf", "maxwell", "lambert", "non_central")
 
 
-def _clean(wd, keep=("jaxcache",)):
-    import shutil
-    for f in os.listdir(wd):
-        if f in keep:
-            continue
-        q = os.path.join(wd, f)
-        shutil.rmtree(q, ignore_errors=True) if os.path.isdir(q) else os.remove(q)
-
-
 def run(prop_id, tier, seed, replay=None):
     rep = vlib.Report(prop_id, tier, seed)
-    wd = vlib.workdir(prop_id, fresh=False)
-    _clean(wd)
-    cache = os.path.join(wd, "jaxcache")
-    os.makedirs(cache, exist_ok=True)
+    wd = vlib.workdir(prop_id)
     names = sorted(TABLE)
     if replay:
         with open(replay) as f:
@@ -491,7 +476,7 @@ def run(prop_id, tier, seed, replay=None):
     import concurrent.futures as cf
     disable_jit = tier == "quick"
     ex = cf.ProcessPoolExecutor(max_workers=min(vlib.NCPU, len(tasks)), mp_context=mp.get_context("spawn"),
-                                initializer=_init_worker, initargs=(cache, disable_jit))
+                                initializer=_init_worker, initargs=(disable_jit,))
     futs = {ex.submit(_history_events, t): t for t in tasks}
 
     def _abort():
